@@ -18,7 +18,7 @@ from common import BUILD_DIR, Outcome, Rng, err_class, load_spec, run_driver  # 
 logging.disable(logging.CRITICAL)
 
 
-def contexts():
+def contexts(no_switch_names=False):
     from richchk.model.richchk.mrgn.rich_location import RichLocation
     from richchk.model.richchk.mrgn.rich_mrgn_lookup import RichMrgnLookup
     from richchk.model.richchk.richchk_decode_context import RichChkDecodeContext
@@ -33,17 +33,21 @@ def contexts():
     locs = {i: RichLocation(i, i + 1, i + 2, i + 3, RichString("loc%d" % i), i) for i in range(1, 256)}
     strs = {i: RichString("string-%d" % i) for i in range(1, 3000)}
     sw = {i: RichSwitch(RichString("sw%d" % i), i) for i in range(0, 256)}
+    if no_switch_names:
+        # a map without a switch-name table: the decode side knows no switch, the encode side knows every
+        # switch by its number alone
+        sw = {i: RichSwitch(_index=i) for i in range(0, 256)}
     cu = {i: RichCuwpSlot(i, i % 101, (i * 7) % 101, i * 3, i, _index=i) for i in range(1, 65)}
     dctx = RichChkDecodeContext(
         _rich_str_lookup=RichStrLookup(_string_by_id_lookup=dict(strs), _id_by_string_lookup={v.value: k for k, v in strs.items()}),
         _rich_mrgn_lookup=RichMrgnLookup(_location_by_id_lookup=dict(locs), _id_by_location_lookup={v: k for k, v in locs.items()}),
-        _rich_swnm_lookup=RichSwnmLookup(_switch_by_id_lookup=dict(sw), _id_by_switch_lookup={v: k for k, v in sw.items()}),
+        _rich_swnm_lookup=RichSwnmLookup(_switch_by_id_lookup={} if no_switch_names else dict(sw), _id_by_switch_lookup={v: k for k, v in sw.items()}),
         _rich_cuwp_lookup=RichCuwpLookup(_cuwp_by_id_lookup=dict(cu), _id_by_cuwp_lookup={v: k for k, v in cu.items()}),
     )
     ectx = RichChkEncodeContext(
         _rich_str_lookup=dctx.rich_str_lookup,
         _rich_mrgn_lookup=dctx.rich_mrgn_lookup,
-        _rich_swnm_lookup=dctx.rich_swnm_lookup,
+        _rich_swnm_lookup=RichSwnmLookup(_switch_by_id_lookup=dict(sw), _id_by_switch_lookup={v: k for k, v in sw.items()}),
         _rich_cuwp_lookup=dctx.rich_cuwp_lookup,
         _wav_metadata_lookup=None,
     )
@@ -296,6 +300,11 @@ def run(prop, tier, seed):
                     gmap = {d["arg"]: d["field"] for d in row["decode"]}
                     if obs != gmap:
                         out.disagreements.append({"op": "trigrow %s %d" % (kind, srow["id"]), "model": gmap, "real": obs})
+            # a map without switch names: a switch argument is still the number in its field
+            if trow and any(d["codec"] == "switch" for d in trow["decode"]):
+                d2, e2 = contexts(no_switch_names=True)
+                for v in range(2):
+                    probe(kind, trow, srow, fields, d2, e2, out, rng, v)
             # boundary values of the plain-number arguments (0 and the field's maximum): decode then encode is exact
             if trow:
                 boundary_probe(kind, trow, srow, fields, dctx, ectx, out)
